@@ -75,6 +75,20 @@ def one_case(run, driver, rng, reuse=False, given=None):
                     k = e.cur.index[e.cur["geographic_unit_fips"] == e.pre.loc[i, "geographic_unit_fips"]]
                     if len(k):
                         e.cur.loc[k[0], rc] = int(round((new + 1) * (int(e.cur.loc[k[0], rc]) + 1) / (old + 1)))
+    policy = "drop"
+    if given is not None and len(given) > 4:
+        policy = given[4]
+    elif given is None and not reuse:
+        if rng.random() < 0.3 and n_rep >= 9:
+            # a caller-supplied blocklist that names reporting and outstanding units (one state: a state blocklist would empty the run)
+            ids = list(e.pre["geographic_unit_fips"])
+            e.unit_blocklist = rng.sample(ids[:n_rep], 2) + rng.sample(ids[n_rep:], 1)
+        if rng.random() < 0.35:
+            # units of the baseline that have not appeared in the feed yet; under the zero policy they are outstanding units with no votes
+            policy = rng.choice(["zero", "zero", "drop"])
+            ids = list(e.pre["geographic_unit_fips"])
+            gone = set(rng.sample(ids[max(6, n_rep - 3):], min(2, len(ids) - max(6, n_rep - 3))))
+            e.cur = e.cur[~e.cur["geographic_unit_fips"].isin(gone)].reset_index(drop=True)
     tf_lo, tf_hi = (given[2] if given is not None and len(given) > 2 else
                     rng.choice([(0.5, 2.0), (0.5, 2.0), (0.5, 2.0), (0, 2.0), (0.25, 3.0), (0.5, 1.5), (0, 10.0)]))
     outliers = (given[3] if given is not None and len(given) > 3 else
@@ -82,7 +96,7 @@ def one_case(run, driver, rng, reuse=False, given=None):
     mp = {"fit_margin_outlier_model": False, "fit_turnout_outlier_model": bool(outliers), "turnout_factor_lower": tf_lo,
           "turnout_factor_upper": tf_hi}
     case = {"election": e.describe(), "estimands": estimands, "reuse_frames": reuse, "turnout_factor_limits": [tf_lo, tf_hi],
-            "turnout_outlier_model": bool(outliers)}
+            "turnout_outlier_model": bool(outliers), "policy": policy}
     calls = []
     C.use_repo()
     flagged_by_rule = []   # what the outlier model must flag, recomputed from its own fit (mean + z * population std of |residual|)
@@ -150,7 +164,7 @@ def one_case(run, driver, rng, reuse=False, given=None):
             res = {"tables": tabs}
         else:
             res = E.run_client(e, estimands=estimands, alphas=[0.5], pi_method="nonparametric", features=[], fixed_effects={},
-                               params=dict(mp))
+                               params=dict(mp), policy=policy)
     except Exception as ex:
         res = {"raises": type(ex).__name__, "msg": str(ex)[:200]}
     finally:
@@ -158,6 +172,9 @@ def one_case(run, driver, rng, reuse=False, given=None):
         CDH._fit_outlier_detection_model = orig_outlier
     run.count("reuse frames" if reuse else "fresh frames")
     run.count(f"turnout factor limits {tf_lo}-{tf_hi}")
+    run.count("policy " + policy)
+    if e.unit_blocklist:
+        run.count("unit blocklist given")
     if outliers:
         run.count("turnout outlier model on")
     run.count(f"{len(estimands)} estimand(s)")
@@ -179,9 +196,17 @@ def one_case(run, driver, rng, reuse=False, given=None):
     # the modelled reporting units according to the rules (not according to the labels the run puts on them): at or above the
     # threshold, turnout factor strictly inside the limits, not flagged by the enabled outlier model
     rule_rep = set()
+    rule_non = set()    # outstanding units the rules predict: below the threshold (or, zero policy, not in the feed yet), not excluded
+    blocked = set(e.unit_blocklist)
     for u in base.index:
-        if u not in cur.index:
+        if u in blocked or not float(base.loc[u, "baseline_turnout"]):
             continue
+        if u not in cur.index:
+            if policy == "zero":
+                rule_non.add(u)
+            continue
+        if float(cur.loc[u, "percent_expected_vote"]) < e.threshold:
+            rule_non.add(u)
         tfu = Fraction(int(cur.loc[u, "results_turnout"])) / C.frac(float(base.loc[u, "baseline_turnout"])) if float(base.loc[u, "baseline_turnout"]) else None
         if float(cur.loc[u, "percent_expected_vote"]) >= e.threshold and tfu is not None and C.frac(tf_lo) < tfu < C.frac(tf_hi):
             rule_rep.add(u)
@@ -199,6 +224,14 @@ def one_case(run, driver, rng, reuse=False, given=None):
                       "factor limits as configured, enabled outlier model)", input=case,
                       impl={"only in the run": sorted(impl_rep - rule_rep)[:5], "only by the rules": sorted(rule_rep - impl_rep)[:5]},
                       predicate="wmed over the modelled reporting units", signature="C05:modelled-set", election=e.to_json())
+        return
+    impl_non = {u for u in ud.index if ud.loc[u, "reporting"] == 0 and ud.loc[u, "unit_category"] == "expected"}
+    if impl_non != rule_non:
+        run.case(case, True)
+        run.violation("the outstanding units that are predicted are not every baseline unit below the threshold (zero policy: or "
+                      "not in the feed yet) that is not excluded", input=case,
+                      impl={"only in the run": sorted(impl_non - rule_non)[:5], "only by the rules": sorted(rule_non - impl_non)[:5]},
+                      predicate="swing_closed_form (every nonreporting unit)", signature="C05:nonreporting-set", election=e.to_json())
         return
     for k, est in enumerate(estimands):
         rep_ids = [u for u in ud.index if ud.loc[u, "reporting"] == 1 and ud.loc[u, "unit_category"] == "expected"]
@@ -233,12 +266,12 @@ def one_case(run, driver, rng, reuse=False, given=None):
         ops = [{"op": "conf.wmed", "rw": [[C.rat(r), C.rat(w)] for r, w in rw]}]
         for u in non_ids:
             ops.append({"op": "conf.swing", "m": C.rat(m), "b": C.rat(C.frac(float(base.loc[u, f"baseline_{est}"]))),
-                        "part": C.rat(int(cur.loc[u, f"results_{est}"]))})
+                        "part": C.rat(int(cur.loc[u, f"results_{est}"]) if u in cur.index else 0)})
         outs = driver.run(ops) if driver else None
         for j, u in enumerate(non_ids):
             got = float(ud.loc[u, f"pred_{est}"])
             b = C.frac(float(base.loc[u, f"baseline_{est}"]))
-            part = Fraction(int(cur.loc[u, f"results_{est}"]))
+            part = Fraction(int(cur.loc[u, f"results_{est}"])) if u in cur.index else Fraction(0)
             x = max((1 + m) * (b + 1), part)
             d = abs(x * 2 - round(x * 2))
             if d < TIE * 2 and round(x * 2) % 2 == 1:
@@ -362,7 +395,8 @@ def replay(run, driver, payload):
         e = E.Election.from_json(payload["election"])
         inp = payload["input"]
         one_case(run, driver, run.rng, reuse=bool(inp.get("reuse_frames")),
-                 given=(e, inp["estimands"], tuple(inp.get("turnout_factor_limits", (0.5, 2.0))), bool(inp.get("turnout_outlier_model"))))
+                 given=(e, inp["estimands"], tuple(inp.get("turnout_factor_limits", (0.5, 2.0))), bool(inp.get("turnout_outlier_model")),
+                        inp.get("policy", "drop")))
         return
     # otherwise the generators are driven by the seed and pass recorded in the replay file (set by main): the same pass is re-run
     explore(run, driver, run.budget)
